@@ -255,6 +255,13 @@ def gen_ops(rng, sc, length, kinds):
         elif k == "cache":
             mode = rng.choice(["whole", "target", "deps"])
             T = sorted(rng.sample(range(n), rng.randint(1, min(2, n))))
+            if mode == "deps" and rng.random() < 0.5:
+                # directed: two targets one of which depends on the other THROUGH other nodes (m -> x -> n): the file then
+                # holds x although its ancestor m is not in it; a restart runs m and n, never x
+                g_ = nxg(sc)
+                far = [(a, b) for a in range(n) for b in nx.descendants(g_, a) if not g_.has_edge(a, b)]
+                if far:
+                    T = sorted(rng.choice(far))
             ops.append(dict(op="cache", inst=inst, mode=mode, T=T, args=rng.choice([(1,), (2, 3), (5, 6)]),
                             restart=rng.choice(["same", "whole"]), omit_default=rng.random() < 0.5,
                             omit_required=rng.random() < 0.35, slot=rng.choice([None, 0, 0, 1])))
